@@ -5,9 +5,23 @@ Replay: both analysis functions (sets, no duplicates, refusal), and evaluation a
 restricted to the reported top-level names and called names."""
 from checks.evalcheck import run_family
 
+import json
+
+def corrupt(lines):
+    for i, l in enumerate(lines):
+        e = json.loads(l)
+        if e["all"][0] == "ok" and len(e["all"][1]) >= 2:
+            e["all"][1] = e["all"][1][1:]
+            return i, json.dumps(e)
+    raise RuntimeError("nothing to corrupt")
+
 def run(ctx):
     run_family(ctx, "c10", 5000, families=("fields", "eval"))
+    # random programs (depth <= 4, every operator and builtin): both analysis functions and the sufficiency clause
+    tr = ctx.record("fields-random", "fields", ["-n", 60000 if ctx.thorough else 4000])
+    ctx.validate("fields-random-validate", "trace/Trace_Fields.tla", "trace/Trace_Fields.cfg", tr, "fields", shards=12 if ctx.thorough else 2)
+    ctx.selftest_binding("fields-random", "trace/Trace_Fields.tla", "trace/Trace_Fields.cfg", tr, "fields", corrupt)
     return ctx.finish(
         rule="every formula of the family: reported field sets compared with the specification's lower/upper sets; evaluation "
-             "against the full and the restricted data map compared with the specification; non-trivial = all",
+             "against the full and the restricted data map compared with the specification; plus seeded random programs whose reported sets and full / restricted results are validated by Trace_Fields; non-trivial = all",
         assumptions=["a name that occurs only as an assignment target may or may not be reported"])
